@@ -260,6 +260,10 @@ func applyBaseline(prog *ssa.Program, all map[*ssa.Function]bool) []string {
 	for _, st := range bl.Structs {
 		baselineStructNames[st.Name] = true
 	}
+	baselineTypeNames = map[string]bool{}
+	for _, t := range bl.Types {
+		baselineTypeNames[t.Name] = true
+	}
 	baselineWrappers = map[string][]baseFn{}
 	for _, b := range bl.Funcs {
 		baselineFns[b.Name] = true
@@ -624,6 +628,23 @@ var liftRecv = map[*ssa.Function]string{}
 // ---------------------------------------------------------------------------
 
 var baselineWrappers = map[string][]baseFn{}
+
+// baselineTypeNames: named types of the confirmed tree ("pkg.T"); nil without a baseline.
+var baselineTypeNames map[string]bool
+
+// freshInterfaceCall: the call is an invoke through an interface type that did not exist on the
+// confirmed tree ("introduce a tiny interface for a dependency"): it stands for the static call
+// of the method of that name.
+func freshInterfaceCall(cc *ssa.CallCommon) bool {
+	if !cc.IsInvoke() || baselineTypeNames == nil {
+		return false
+	}
+	n, ok := cc.Value.Type().(*types.Named)
+	if !ok || n.Obj().Pkg() == nil || !isJivaPkg(n.Obj().Pkg()) {
+		return false
+	}
+	return !baselineTypeNames[rawQual(n.Obj().Pkg())+"."+n.Obj().Name()]
+}
 
 // resultAlias: a baseline function that now returns ADDITIONAL values (`error` -> `(int, error)`):
 // per current result index the baseline index (-1: the baseline's single result, rendered as the
